@@ -82,9 +82,8 @@ package gcc
 //@ # property C02 ("keeps working after malformed or empty input") and C16: a feedback report that acknowledges
 //@ # nothing changes nothing (no 0/0 loss ratio can enter the average), and the loss-based rate stays within its bounds
 //@ func (*lossBasedBandwidthEstimator).updateLossEstimate
-//@   requires bounds: e.minBitrate <= e.maxBitrate
 //@   modifies e.averageLoss, e.lastLossUpdate, e.lastIncrease, e.lastDecrease, e.bitrate, e.lock
 //@   ensures empty_report_ignored: len(results) == 0 ==> e.averageLoss == old(e.averageLoss) && e.bitrate == old(e.bitrate)
 //@        && e.lastLossUpdate == old(e.lastLossUpdate) && e.lastIncrease == old(e.lastIncrease) && e.lastDecrease == old(e.lastDecrease)
-//@   ensures within_bounds: e.bitrate == old(e.bitrate) || (e.minBitrate <= e.bitrate && e.bitrate <= e.maxBitrate)
+//@   ensures within_bounds: e.minBitrate <= e.maxBitrate ==> e.bitrate == old(e.bitrate) || (e.minBitrate <= e.bitrate && e.bitrate <= e.maxBitrate)
 //@   loop 1 invariant count: 0 <= packetsLost && packetsLost <= rangeindex + 1
